@@ -100,7 +100,19 @@ _ENV = {'__builtins__': {}, 'T': _T, 'S': _S, 'D': _D, 'F': _F,
 _ARROW = re.compile(r'(\w+) \|-> ')
 
 
+_MEMO: dict = {}
+
+
 def fast_value(text: str):
+    v = _MEMO.get(text)
+    if v is None:
+        v = _MEMO[text] = _fast_value(text)
+        if len(_MEMO) > 400000:
+            _MEMO.clear()
+    return v
+
+
+def _fast_value(text: str):
     s = ' '.join(text.split())
     if '(' in s:
         s = s.replace('(', 'F((').replace(')', '))')
@@ -189,9 +201,13 @@ class Concrete:
         self.base = rng.choice(BASES)
         self.messages: dict[int, bytes] = {}      # uid -> literal
         self.appends: dict[int, bytes] = {}       # uid -> APPEND command
+        self.later: dict[int, list] = {}          # uid -> flags set by STORE after SELECT
         for m in mbox:
             msg = self.message(m)
             self.messages[m['uid']] = msg
+            cand = sorted(f for f in m['flags'] if f != 'Recent' and f in SYSFLAG)
+            self.later[m['uid']] = ([f for f in cand if rng.random() < 0.5]
+                                    if rng.random() < 0.3 else [])
             self.appends[m['uid']] = self.append_cmd(m, msg)
 
     # -- small spellings ---------------------------------------------------
@@ -345,13 +361,13 @@ class Concrete:
                 raise ValueError('token leaked into boilerplate')
         return msg
 
+    @staticmethod
+    def flag_names(flags) -> bytes:
+        return b' '.join(SYSFLAG[f] if f in SYSFLAG else KW[f] for f in sorted(flags))
+
     def flags(self, m) -> bytes:
-        out = []
-        for f in sorted(m['flags']):
-            if f == 'Recent':
-                continue
-            out.append(SYSFLAG[f] if f in SYSFLAG else KW[f])
-        return b' '.join(out)
+        return self.flag_names(f for f in m['flags']
+                               if f != 'Recent' and f not in self.later[m['uid']])
 
     def append_cmd(self, m, msg: bytes) -> bytes:
         day, clock, zone = self.datetime_parts(m['int'])
@@ -393,6 +409,11 @@ class Concrete:
         script.append(('a', b'SELECT INBOX'))
         if fillers:
             script.append(('a', b'UID EXPUNGE ' + ','.join(map(str, fillers)).encode()))
+        for m in mbox:
+            if self.later[m['uid']]:
+                script.append(('a', b'UID STORE %d +FLAGS%s (%s)' % (
+                    m['uid'], self.rng.choice([b'', b'.SILENT']),
+                    self.flag_names(self.later[m['uid']]))))
         if mbox:
             script.append(('a', b'FETCH 1:* (UID FLAGS RFC822.SIZE)'))
         hidden = [m['uid'] for m in mbox if m['hidden']]
@@ -411,7 +432,7 @@ class Concrete:
             sub = w[i:i + n]
             ok = True
             for msg in self.messages.values():
-                if sub in msg.decode().lower().replace(w, ''):
+                if sub in msg.decode().lower().replace(w, '\0'):
                     ok = False
             if any(sub in o for tt, o in self.tok.items() if tt != t):
                 ok = False
@@ -734,6 +755,53 @@ def execute_mailbox(run: Run, stats: dict, mbid, mbox, triples, rng, corrupt=Non
             srv.close()
 
 
+def late_arrival(run: Run, stats: dict, mbid, mbox, triples, rng) -> None:
+    """The session's view is what it has been told: a message delivered after
+    its last command has no sequence number yet.  One world per mailbox: after
+    the build another session APPENDs a copy of a message the program selects;
+    the first SEARCH afterwards must still answer for the old view (only the
+    first: its response announces the newcomer)."""
+    if not mbox:
+        return
+    cands = [t for t in triples if any(t['exp']['seq']['alts']) and not t['bad']]
+    if not cands:
+        return
+    tr = rng.choice(cands)
+    conc = Concrete(mbox, rng)
+    script = conc.build_script()
+    ideal = max(tr['exp']['seq']['alts'], key=len)
+    uid = mbox[rng.choice(sorted(ideal)) - 1]['uid']
+    script.append(('q', conc.appends[uid]))
+    srv = Server()
+    try:
+        run_build(srv, conc, script)
+        prog = conc.program(tr['key'])
+        cond, ids, raw = ask(srv, prog, False)
+        verdict = classify(tr, False, cond, ids)
+        stats['late_arrival'] = stats.get('late_arrival', 0) + 1
+        run.count_exec((mbid, tr['ktext'], 'late'), nontrivial=True)
+        if verdict[0] == 'ok' or (verdict[0] == 'dev'
+                                  and all(n in run.known.open for n in verdict[1])):
+            if verdict[0] == 'dev':
+                for n in verdict[1]:
+                    run.known.excuses(n)
+            return
+        got = sorted(ids or ())
+        sig = 'UnannouncedMessageSearched' if len(mbox) + 1 in got else (
+            '+'.join(sorted(verdict[1])) if verdict[0] == 'dev' else verdict[1])
+        run.violation(
+            f'SEARCH {prog.decode("latin-1")!r} right after another session delivered a '
+            f'message: returned {got}, allowed {jsonable(tr["exp"]["seq"]["alts"])} '
+            f'(the view has {len(mbox)} messages)',
+            {'check': 'C13', 'mailbox': jsonable(mbox), 'key': tr['ktext'],
+             'build': [[s, c.decode('latin-1')] for s, c in script],
+             'command': 'SEARCH ' + prog.decode('latin-1'), 'uid': False,
+             'expected': jsonable(tr['exp']['seq']), 'bad': sorted(tr['bad']),
+             'answer': raw.decode('latin-1'), 'late_arrival': True}, sig)
+    finally:
+        srv.close()
+
+
 def corrupt_exp(exp):
     """Spec-side corruption for the self-test: drop the lowest id of every
     allowed set / add id 1 to the empty set."""
@@ -777,6 +845,11 @@ def main(tier: str) -> int:
     d = tempfile.mkdtemp(prefix='verif.c13.')
     try:
         t0 = time.time()
+        if os.environ.get('C13_NUMMB'):      # experiments: another sample size
+            text = open(os.path.join(tlc.SPEC_DIR, cfg)).read()
+            text = re.sub(r'NumMb = \d+', 'NumMb = %d' % int(os.environ['C13_NUMMB']), text)
+            cfg = os.path.join(d, 'Search_n.cfg')
+            open(cfg, 'w').write(text)
         res = run_model(run, cfg, 1000 + run.seed, d, workers=8)
         if not res.ok:
             run.machinery(f'{cfg}: {res.violated or res.error}')
@@ -810,6 +883,7 @@ def main(tier: str) -> int:
         trs = sorted(by_mb[mbid], key=lambda t: t['ktext'])
         try:
             execute_mailbox(run, stats, mbid, mailboxes[mbid], trs, rng, corrupt)
+            late_arrival(run, stats, mbid, mailboxes[mbid], trs, rng)
         except PreconditionFailed as exc:
             run.machinery(f'mailbox {mbid}: view could not be built: {exc}')
             break
